@@ -6,6 +6,7 @@
    (vm_compute) on both with the same inputs and the observable traces are compared;
  * tie of Venom.v to the real back end: snapshots are compiled by the real Venom back end and run on pyrevm vs `vrun`.
 """
+import os
 import time
 
 from vlib import c14_pass_export as X
@@ -195,6 +196,8 @@ def _needs(info):
             why.append("hash")
         elif p and p[0] == 1:
             why.append("op:" + (X.UNKNOWN.names[p[1]] if p[1] < len(X.UNKNOWN.names) else "?"))
+        elif p and p[0] == 11:
+            why.append("poison:" + {1: "branch", 2: "assert", 4: "key", 5: "hash", 6: "index", 7: "fmp"}.get(p[1], "?"))
         elif p and p[0] != 0:
             why.append({3: "bounds", 4: "external", 5: "undef", 6: "arity", 7: "fuel", 8: "badlabel", 9: "fallthrough", 10: "huge"}.get(p[0], "?"))
     return need, why
@@ -415,8 +418,8 @@ def stage2(ctx, progs):
         def work(kg):
             k, g = kg
             try:
-                g.compile_defs(f"{k}")
-                return g, run_group(g, rounds, f"{k}"), None
+                g.compile_defs(f"{os.getpid()}_{k}")
+                return g, run_group(g, rounds, f"{os.getpid()}_{k}"), None
             except Exception as e:  # noqa
                 return g, None, f"{type(e).__name__}: {str(e)[-1500:]}"
         with ThreadPoolExecutor(max_workers=3) as ex:
@@ -444,8 +447,8 @@ def stage2(ctx, progs):
                     if p in reported:
                         continue
                     reported.add(p)
-                    found |= _report_tv_mismatch(ctx, progs, g, p, i, j, f"{k}")
-            found |= _tie(ctx, progs, g, stats, f"{k}")
+                    found |= _report_tv_mismatch(ctx, progs, g, p, i, j, f"{os.getpid()}_{k}")
+            found |= _tie(ctx, progs, g, stats, f"{os.getpid()}_{k}")
         for g in groups:
             g.cleanup()
         ctx.extra["pass_tv_cover"] = cover
